@@ -25,6 +25,21 @@ WORLD_NOTE = ('Modelled not verified: the dependency check inside BoundRoute.__i
               'application and of every Route object look for. ')
 
 CLAIMED = {
+ 'C13': dict(
+   text=('PARTIAL. Theorems (Props/C13.v) over Model/Wsgi.v: in the wrapper stack built by Application.__init__ every middleware '
+         'type contributes its WSGI wrapper at most once, and the application-level middlewares come first in list order (first '
+         'outermost) with route-/embedded-level ones after them; a protocol monitor for one request (start_response exactly once, '
+         'well-formed status and headers, before any non-empty chunk, only bytes, nothing but empty chunks for HEAD, closed last) '
+         'is proved SOUND w.r.t. the declarative reading. That every trace the implementation can produce is accepted is NOT a '
+         'theorem (werkzeug produces the events): every observed trace of 18 response kinds x 4 methods x header sets is decided by '
+         'the extracted proved monitor (run-time verification), files opened under clastic.static must be closed after close(), '
+         'wsgiref.validate runs on every kind, wrapper orders of random application trees are compared with the model, and '
+         'RerouteWSGI targets check environ identity, intact entries and verbatim relay.'),
+   note=COMMON_NOTE + 'Modelled not verified: werkzeug BaseResponse.__call__ / FileWrapper / get_app_iter; the bound routes\' middleware '
+        'lists are inputs of the stack model (C03/C10 decide them); wsgiref.validate\'s objection to a Content-Type header on 304/204 is '
+        'recorded in the evidence, not counted (neither PEP 3333 nor the property demands it).',
+   technique='Coq proof (list lemmas on the wrapper collection; soundness of a protocol monitor by invariant over event folds) + run-time verification of observed traces by the extracted proved monitor + differential check of wrapper stacks',
+   design='6/C13'),
  'C18': dict(
    text=('Theorems (Props/C18.v) over Model/Meta.v (get_resource_info with repr as a section variable): two hosts whose resources '
          'differ only in the VALUES of secret-named entries produce the same resource listing (noninterference, any number of '
